@@ -87,7 +87,7 @@ theorem SortedQ.closed : Closed Wf SortedQ where
     · exact h1
   pkt := fun s L _ c _ _ _ _ _ _ h _ _ _ _ _ =>
     h.mono (List.Sublist.refl _) (fresh_updF c.key tickInfo (fun _ => rfl) (fun _ => Or.inl (tickInfo_fields _).2.1) rfl)
-  done := fun s L prio c now _ _ hw h _ _ _ _ _ => by
+  done := fun s L prio c now _ _ hw h _ _ _ => by
     have hfr : ∀ k, fresh (transferDoneFile s c.key now) k = true → fresh s k = true :=
       fresh_updF c.key (fun f => transferDoneInfo f now) (fun _ => rfl)
         (fun f => Or.inr (by show f.info.total + 1 ≠ 0; omega)) (transferDoneFile_objs s c.key now)
